@@ -10,11 +10,14 @@ from checks.readergen import node, TRUE, FALSE, NULL
 INTS = [0, 1, 127, 128, 255, 256, 32767, 32768, 65535, 65536, 2**31 - 1, 2**31, 2**32 - 1, 2**32, 2**53, 2**53 + 1,
         2**63 - 1, 2**63, 2**64 - 1, -1, -31, -32, -33, -128, -129, -32768, -32769, -2**31, -2**31 - 1, -2**53, -2**63]
 F32 = [0.0, -0.0, 1.5, -0.25, 0.1, 3.4028234663852886e38, 1.17549435e-38, 1e-45, 16777216.0, 16777217.0, 100.0, -3.0,
-       123456.789, 1e10, 1e-10, 9.999999e-5, 0.001, 1234567.0, float("inf"), float("-inf"), float("nan")]
+       123456.789, 1e10, 1e-10, 9.999999e-5, 0.001, 1234567.0, float("inf"), float("-inf"), float("nan"),
+       2.0 ** 31, 2.0 ** 31 - 128, -2.0 ** 31, -2.0 ** 31 - 256, 2.0 ** 32, -2.0 ** 32, 2.0 ** 40 + 2.0 ** 20, 2.0 ** 62,
+       -2.0 ** 62, 2.0 ** 63 - 2.0 ** 39, -2.0 ** 63, 2.0 ** 63, 2.0 ** 64, -2.0 ** 63 - 2.0 ** 40, 1e19, 65536.0, -129.0]
 # doubles that are NOT exactly representable as float (the other class is the known finding double-stored-as-float)
 F64 = [0.1, 1e300, -2.5e-300, 1.7976931348623157e308, 2.2250738585072014e-308, 123456789.125, 0.30000000000000004,
        3.141592653589793, 1e-7, 9.999999999e-5, 1e21, 1.7e19, 4.2e-5, float("inf"), float("nan"), 2.0 ** 53 + 2,
-       1234567.891, 0.001234, 98765.4321]
+       1234567.891, 0.001234, 98765.4321, 1e15, -1e15 - 1, 2.0 ** 31 + 1, -2.0 ** 31 - 1, 2.0 ** 62 + 2.0 ** 10,
+       2.0 ** 63 - 1024, -2.0 ** 63 - 2048, 2.0 ** 63 + 2048, 2.0 ** 64 - 2048, 4294967297.0, 1e18 + 128]
 # doubles exactly representable as float (stored as float by the library): kept separate
 F64_AS_FLOAT = [13592.40625, 0.0078125, 1.5, 100.0, 8388608.0, 3.0, 0.5]
 
